@@ -1066,6 +1066,438 @@ theorem compile_all_exact_checked (w : Workload) (o : BuildOpts) (c : CustomOpts
     evalGs (compileAll w o c ps) req = specDecisionOn w o.bundle c o.forTCP ps req :=
   compile_all_exact w o c ps req (hypsOn_of_B _ _ _ h).1 (hypsOn_of_B _ _ _ h).2
 
+/-! ## CUSTOM with defined providers: when the external authorizer is consulted -/
+
+theorem insertSorted_nodup (x : Str) (l : List Str) (hx : x ∉ l) (hl : l.Nodup) : (insertSorted x l).Nodup := by
+  induction l with
+  | nil => simp [insertSorted]
+  | cons a t ih =>
+    simp only [insertSorted]
+    have hxa : x ≠ a := fun e => hx (by simp [e])
+    have hxt : x ∉ t := fun h => hx (List.mem_cons_of_mem _ h)
+    have hat : a ∉ t := (List.nodup_cons.1 hl).1
+    have htn : t.Nodup := (List.nodup_cons.1 hl).2
+    split
+    · rw [List.nodup_cons]
+      refine ⟨?_, ih hxt htn⟩
+      rw [insertSorted_mem]
+      rintro (h | h)
+      · exact hxa h.symm
+      · exact hat h
+    · rw [List.nodup_cons]
+      exact ⟨hx, hl⟩
+
+theorem sortDedup_nodup (l : List Str) : (sortDedup l).Nodup := by
+  unfold sortDedup
+  have hn := dedupStr_nodup l
+  generalize dedupStr l = d at hn
+  induction d with
+  | nil => simp
+  | cons a t ih =>
+    simp only [List.foldr_cons]
+    have hat : a ∉ t := (List.nodup_cons.1 hn).1
+    exact insertSorted_nodup a _ (by rw [foldr_insertSorted_mem]; exact hat) (ih (List.nodup_cons.1 hn).2)
+
+theorem minName_eq_none (l : List Str) : minName l = none ↔ l = [] := by
+  cases l with
+  | nil => simp [minName]
+  | cons n ns =>
+    cases hm : minName ns with
+    | none => simp [minName, hm]
+    | some m =>
+      simp only [minName, hm]
+      by_cases hlt : strLt m n = true <;> simp [hlt]
+
+theorem minName_mem (l : List Str) (n : Str) (h : minName l = some n) : n ∈ l := by
+  induction l generalizing n with
+  | nil => simp [minName] at h
+  | cons a t ih =>
+    simp only [minName] at h
+    cases hm : minName t with
+    | none => simp only [hm, Option.some.injEq] at h; subst h; simp
+    | some m =>
+      simp only [hm] at h
+      split at h
+      · simp only [Option.some.injEq] at h; subst h
+        exact List.mem_cons_of_mem _ (ih m hm)
+      · simp only [Option.some.injEq] at h; subst h; simp
+
+/-- The generated names of one provider's CUSTOM policies never carry another provider's id prefix
+    (fails for provider names such as `x` and `x-ns`: `ext_authz_prefix_quirk_witness`). -/
+def CustomIsolated (o : BuildOpts) (cps : List Policy) : Prop :=
+  ∀ p ∈ cps, ∀ pr ∈ cps.map (·.provider), pr ≠ p.provider → ∀ e ∈ customEntries o p, hasPrefix (extPrefix pr) e.1 = false
+
+theorem customEntries_own_prefix (o : BuildOpts) (p : Policy) :
+    ∀ e ∈ customEntries o p, hasPrefix (extPrefix p.provider) e.1 = true := by
+  intro e he
+  unfold customEntries at he
+  obtain ⟨e0, _, rfl⟩ := List.mem_map.1 he
+  unfold extPrefix customPrefix hasPrefix
+  simp only [List.isPrefixOf_iff_prefix]
+  split
+  · rename_i hemp
+    have : p.provider = [] := by simpa using hemp
+    rw [this, List.append_nil]
+    exact List.prefix_append _ _
+  · simp only [List.append_assoc]
+    exact ⟨['-'] ++ e0.1, by simp⟩
+
+theorem providerRules_eq (o : BuildOpts) (cps : List Policy) (prov : Str)
+    (hnd : ((cps.flatMap (customEntries o)).map (·.1)).Nodup) :
+    providerRules o cps prov = (cps.filter fun p => p.provider == prov && !p.dryRun).flatMap (customEntries o) := by
+  unfold providerRules
+  rw [upsertAll_eq]
+  · simp
+  · simp only [List.nil_append]
+    exact List.Nodup.sublist ((flatMap_filter_sublist _ _ cps).map _) hnd
+
+/-- What the shadow engine of a provider's RBAC filter writes: nothing when no policy of the provider
+    matches, else the name of one of the provider's matching policies. -/
+theorem shadowWrite_custom (o : BuildOpts) (cps : List Policy) (pr : Str) (req : Request) (f : Filter)
+    (hf : f.shadow = some ⟨.deny, providerRules o cps pr⟩)
+    (hnd : ((cps.flatMap (customEntries o)).map (·.1)).Nodup) :
+    (((cps.filter fun p => p.provider == pr && !p.dryRun).any (compiledPolicyMatch o false req)) = false →
+      shadowWrite f req = none) ∧
+    (((cps.filter fun p => p.provider == pr && !p.dryRun).any (compiledPolicyMatch o false req)) = true →
+      ∃ n, shadowWrite f req = some n ∧ ∃ p ∈ cps, p.provider = pr ∧ ∃ e ∈ customEntries o p, e.1 = n) := by
+  have hany := providerRules_any o cps pr req hnd
+  unfold shadowWrite
+  rw [hf]
+  simp only
+  constructor
+  · intro h
+    rw [h] at hany
+    rw [minName_eq_none]
+    simp only [List.map_eq_nil_iff, List.filter_eq_nil_iff]
+    intro e he hm
+    have : (providerRules o cps pr).any (fun e => evalPolicy e.2 req) = true :=
+      List.any_eq_true.2 ⟨e, he, hm⟩
+    rw [hany] at this; cases this
+  · intro h
+    rw [h] at hany
+    obtain ⟨e, he, hm⟩ := List.any_eq_true.1 hany
+    cases hmin : minName (((providerRules o cps pr).filter fun e => evalPolicy e.2 req).map (·.1)) with
+    | none =>
+      rw [minName_eq_none] at hmin
+      simp only [List.map_eq_nil_iff, List.filter_eq_nil_iff] at hmin
+      exact absurd hm (hmin e he)
+    | some n =>
+      refine ⟨n, rfl, ?_⟩
+      have hn := minName_mem _ n hmin
+      obtain ⟨e', he', rfl⟩ := List.mem_map.1 hn
+      have he'' := (List.mem_filter.1 he').1
+      rw [providerRules_eq o cps pr hnd] at he''
+      obtain ⟨p, hp, hep⟩ := List.mem_flatMap.1 he''
+      have hpp := List.mem_filter.1 hp
+      simp only [Bool.and_eq_true, beq_iff_eq] at hpp
+      exact ⟨p, hpp.1, hpp.2.1, e', hep, rfl⟩
+
+theorem badCustomFilter_shadowPrefix (o : BuildOpts) (cps : List Policy) (pr : Str) :
+    ((badCustomFilter o cps pr).shadowPrefix == extAuthzShadowPrefix) = false := by
+  have : (badCustomFilter o cps pr).shadowPrefix = [] := rfl
+  rw [this]; decide
+
+/-- One provider's pair of filters (RBAC with the shadow rules, then `ext_authz`) in front of a chain. -/
+theorem extAuthzEnabled_customFilters (o : BuildOpts) (cps : List Policy) (pr : Str) (rest : List GFilter)
+    (cur : Option Str) (req : Request) :
+    ∃ f : Filter, f.shadow = some ⟨.deny, providerRules o cps pr⟩ ∧
+      extAuthzEnabled (customFilters o cps pr ++ rest) cur req =
+        (if ((shadowWrite f req).orElse (fun _ => cur)).any (hasPrefix (extPrefix pr)) then [extPrefix pr] else []) ++
+          extAuthzEnabled rest ((shadowWrite f req).orElse (fun _ => cur)) req := by
+  refine ⟨{ name := rbacFilterName o.shapeTCP, rules := none,
+            shadow := some ⟨.deny, providerRules o cps pr⟩,
+            shadowPrefix := extAuthzShadowPrefix,
+            statPrefix := if o.shapeTCP then "tcp.".toList else [] }, rfl, ?_⟩
+  show extAuthzEnabled (GFilter.rbac _ :: GFilter.extAuthz _ _ _ :: rest) cur req = _
+  rw [extAuthzEnabled, extAuthzEnabled]
+  have : (extAuthzShadowPrefix == extAuthzShadowPrefix) = true := beq_self_eq_true _
+  simp only [this, if_true]
+  rfl
+
+theorem extAuthzEnabled_bad (o : BuildOpts) (cps : List Policy) (provs : List Str) (cur : Option Str) (req : Request) :
+    extAuthzEnabled (provs.map fun pr => GFilter.rbac (badCustomFilter o cps pr)) cur req = [] := by
+  induction provs generalizing cur with
+  | nil => rfl
+  | cons pr t ih =>
+    simp only [List.map_cons, extAuthzEnabled, badCustomFilter_shadowPrefix]
+    exact ih cur
+
+/-- The chain of the CUSTOM builder for defined / undefined providers, walked from any stored id that
+    carries none of the remaining providers' prefixes. -/
+theorem extAuthzEnabled_good (o : BuildOpts) (c : CustomOpts) (cps : List Policy) (req : Request)
+    (hnd : ((cps.flatMap (customEntries o)).map (·.1)).Nodup) (hiso : CustomIsolated o cps)
+    (provs : List Str) (hsub : ∀ pr ∈ provs, pr ∈ cps.map (·.provider)) (hnp : provs.Nodup) (cur : Option Str)
+    (hinv : ∀ n, cur = some n → ∀ pr ∈ provs, hasPrefix (extPrefix pr) n = false) :
+    extAuthzEnabled (provs.flatMap fun pr =>
+        if c.providers.contains pr then
+          (if o.shapeTCP && c.httpProviders.contains pr then [] else customFilters o cps pr)
+        else [.rbac (badCustomFilter o cps pr)]) cur req =
+      (provs.filter fun pr => c.providers.contains pr && !(o.shapeTCP && c.httpProviders.contains pr) &&
+        (cps.filter fun p => p.provider == pr && !p.dryRun).any (compiledPolicyMatch o false req)).map extPrefix := by
+  induction provs generalizing cur with
+  | nil => rfl
+  | cons pr t ih =>
+    have hprt : pr ∉ t := (List.nodup_cons.1 hnp).1
+    have htn : t.Nodup := (List.nodup_cons.1 hnp).2
+    have hsubt : ∀ q ∈ t, q ∈ cps.map (·.provider) := fun q hq => hsub q (List.mem_cons_of_mem _ hq)
+    have hinvt : ∀ n, cur = some n → ∀ q ∈ t, hasPrefix (extPrefix q) n = false :=
+      fun n hn q hq => hinv n hn q (List.mem_cons_of_mem _ hq)
+    simp only [List.flatMap_cons, List.filter_cons]
+    cases hdef : c.providers.contains pr with
+    | false =>
+      simp only [Bool.false_eq_true, if_false, Bool.false_and, List.singleton_append, extAuthzEnabled,
+        badCustomFilter_shadowPrefix]
+      exact ih hsubt htn cur hinvt
+    | true =>
+      simp only [if_true, Bool.true_and]
+      cases hskip : (o.shapeTCP && c.httpProviders.contains pr) with
+      | true =>
+        simp only [if_true, Bool.not_true, Bool.false_and, Bool.false_eq_true, if_false, List.nil_append]
+        exact ih hsubt htn cur hinvt
+      | false =>
+        simp only [Bool.false_eq_true, if_false, Bool.not_false, Bool.true_and]
+        obtain ⟨f, hf, hwalk⟩ := extAuthzEnabled_customFilters o cps pr
+          (t.flatMap fun pr =>
+            if c.providers.contains pr then
+              (if o.shapeTCP && c.httpProviders.contains pr then [] else customFilters o cps pr)
+            else [.rbac (badCustomFilter o cps pr)]) cur req
+        rw [hwalk]
+        have hsw := shadowWrite_custom o cps pr req f hf hnd
+        cases hM : (cps.filter fun p => p.provider == pr && !p.dryRun).any (compiledPolicyMatch o false req) with
+        | false =>
+          rw [hsw.1 hM]
+          have e1 : (none : Option Str).orElse (fun _ => cur) = cur := rfl
+          have hno : cur.any (hasPrefix (extPrefix pr)) = false := by
+            cases hc : cur with
+            | none => rfl
+            | some n =>
+              simp only [Option.any_some]
+              exact hinv n hc pr (by simp)
+          simp only [e1, hno, Bool.false_eq_true, if_false, List.nil_append]
+          exact ih hsubt htn cur hinvt
+        | true =>
+          obtain ⟨n, hw, p, hp, hpp, e, he, hen⟩ := hsw.2 hM
+          rw [hw]
+          have e2 : (some n).orElse (fun _ => cur) = some n := rfl
+          have hown : hasPrefix (extPrefix pr) n = true := by
+            have := customEntries_own_prefix o p e he
+            rw [hpp, hen] at this
+            exact this
+          simp only [e2, Option.any_some, hown, if_true, List.map_cons, List.singleton_append]
+          congr 1
+          apply ih hsubt htn (some n)
+          intro n' hn' q hq
+          simp only [Option.some.injEq] at hn'
+          subst hn'
+          have hqne : q ≠ p.provider := by
+            rw [hpp]; intro e'; exact hprt (e' ▸ hq)
+          have := hiso p hp q (hsubt q hq) hqne e he
+          rw [hen] at this
+          exact this
+
+/-- **CUSTOM, whom is asked (compiled level)**: the `ext_authz` filters the generated chain enables for a
+    request are exactly those of the defined providers (usable on the chain kind, policies not in the
+    fail-closed mode) one of whose enforced CUSTOM policies' generated rules match. -/
+theorem ext_authz_enabled_compiled (o : BuildOpts) (c : CustomOpts) (ps : List Policy) (req : Request)
+    (hnd : CustomEntriesDistinct o ps) (hiso : CustomIsolated o (ps.filter (·.action == .custom))) :
+    extAuthzEnabled (compileCustomSelected o c ps) none req =
+      (if (ps.filter (·.action == .custom)).any (fun a => (ps.filter (·.action == .custom)).any fun b => a.provider != b.provider)
+            && !c.multi then []
+       else (sortDedup ((ps.filter (·.action == .custom)).map (·.provider))).filter fun pr =>
+          c.providers.contains pr && !(o.shapeTCP && c.httpProviders.contains pr) &&
+          ((ps.filter (·.action == .custom)).filter fun p => p.provider == pr && !p.dryRun).any
+            (compiledPolicyMatch o false req)).map extPrefix := by
+  unfold CustomEntriesDistinct at hnd
+  generalize hcps : ps.filter (·.action == .custom) = cps at *
+  unfold compileCustomSelected
+  rw [hcps]
+  by_cases hempty : cps.isEmpty = true
+  · have : cps = [] := by simpa using hempty
+    subst this
+    simp [extAuthzEnabled, sortDedup, dedupStr]
+  · have hempty' : cps.isEmpty = false := by simpa using hempty
+    simp only [hempty', Bool.false_eq_true, if_false]
+    have hmany : ((sortDedup (cps.map (·.provider))).length > 1) ↔
+        cps.any (fun a => cps.any fun b => a.provider != b.provider) = true := by
+      rw [sortDedup_length_gt_one]
+      simp only [List.any_eq_true, bne_iff_ne, ne_eq, List.mem_map]
+      constructor
+      · rintro ⟨_, ⟨a, ha, rfl⟩, _, ⟨b, hb, rfl⟩, hab⟩
+        exact ⟨a, ha, b, hb, hab⟩
+      · rintro ⟨a, ha, b, hb, hab⟩
+        exact ⟨_, ⟨a, ha, rfl⟩, _, ⟨b, hb, rfl⟩, hab⟩
+    by_cases hm : (decide ((sortDedup (cps.map (·.provider))).length > 1) && !c.multi) = true
+    · have hm' : (cps.any (fun a => cps.any fun b => a.provider != b.provider) && !c.multi) = true := by
+        simp only [Bool.and_eq_true, decide_eq_true_eq] at hm ⊢
+        exact ⟨hmany.1 hm.1, hm.2⟩
+      simp only [hm, if_true, hm', List.map_nil]
+      exact extAuthzEnabled_bad o cps _ none req
+    · have hmf : (decide ((sortDedup (cps.map (·.provider))).length > 1) && !c.multi) = false := by
+        simpa using hm
+      have hm' : (cps.any (fun a => cps.any fun b => a.provider != b.provider) && !c.multi) = false := by
+        rw [Bool.eq_false_iff]
+        intro h
+        apply hm
+        simp only [Bool.and_eq_true, decide_eq_true_eq] at h ⊢
+        exact ⟨hmany.2 h.1, h.2⟩
+      simp only [hmf, Bool.false_eq_true, if_false, hm']
+      exact extAuthzEnabled_good o c cps req hnd hiso _ (fun pr hpr => (sortDedup_mem _ pr).1 hpr)
+        (sortDedup_nodup _) none (fun n hn => by cases hn)
+
+/-- `customAsks` over the clause-2 reading of the alias-expanded policies, spelled out on the policies
+    themselves. -/
+theorem customAsks_expand_clause2 (c : CustomOpts) (b : List Str) (tcp t : Bool) (ps : List Policy) (req : Request) :
+    customAsks c t ((ps.map (clause2 tcp)).map (expandPolicy b)) req =
+      (if (ps.filter (·.action == .custom)).any (fun a => (ps.filter (·.action == .custom)).any fun x => a.provider != x.provider)
+            && !c.multi then []
+       else (sortDedup ((ps.filter (·.action == .custom)).map (·.provider))).filter fun pr =>
+          c.providers.contains pr && !(t && c.httpProviders.contains pr) &&
+          (enforced .custom ps).any fun p => p.provider == pr && policyMatchesX b (clause2 tcp p) req) := by
+  unfold customAsks
+  have hf : ((ps.map (clause2 tcp)).map (expandPolicy b)).filter (·.action == .custom) =
+      ((ps.filter (·.action == .custom)).map (clause2 tcp)).map (expandPolicy b) := by
+    rw [List.filter_map, List.filter_map]
+    congr 2
+    apply List.filter_congr
+    intro p _
+    simp only [Function.comp]
+    show ((clause2 tcp p).action == Action.custom) = _
+    rw [(clause2_fields tcp p).1]
+  have hprov : ∀ l : List Policy, ((l.map (clause2 tcp)).map (expandPolicy b)).map (·.provider) = l.map (·.provider) := by
+    intro l
+    simp only [List.map_map]
+    apply List.map_congr_left
+    intro p _
+    simp only [Function.comp]
+    show (clause2 tcp p).provider = _
+    exact (clause2_fields tcp p).2.2.2.1
+  have hany : ∀ l : List Policy,
+      ((l.map (clause2 tcp)).map (expandPolicy b)).any (fun a => ((l.map (clause2 tcp)).map (expandPolicy b)).any fun x => a.provider != x.provider) =
+        l.any (fun a => l.any fun x => a.provider != x.provider) := by
+    intro l
+    simp only [List.any_map, Function.comp_def]
+    apply any_congr_mem
+    intro p _
+    apply any_congr_mem
+    intro q _
+    show ((clause2 tcp p).provider != (clause2 tcp q).provider) = _
+    rw [(clause2_fields tcp p).2.2.2.1, (clause2_fields tcp q).2.2.2.1]
+  simp only [hf, hprov, hany]
+  split
+  · rfl
+  · congr 1
+    funext pr
+    congr 1
+    rw [enforced_expand, enforced_clause2]
+    simp only [List.any_map, Function.comp_def, policyMatches_expand]
+    apply any_congr_mem
+    intro p _
+    congr 1
+    show ((clause2 tcp p).provider == pr) = _
+    rw [(clause2_fields tcp p).2.2.2.1]
+
+/-- **CUSTOM, whom is asked.** On every chain the `ext_authz` filters the generated filters enable for a
+    request are exactly those of the providers the statement says must be asked: defined, usable on
+    the chain kind, policies not in the fail-closed mode, and an enforced CUSTOM policy naming the
+    provider matches (clause-2 reading: a CUSTOM rule with an inexpressible field is evaluated on its
+    remaining conditions). -/
+theorem ext_authz_asked_exact (o : BuildOpts) (c : CustomOpts) (ps : List Policy) (req : Request)
+    (h : HypsOn o ps req) (hnd : CustomEntriesDistinct o ps)
+    (hiso : CustomIsolated o (ps.filter (·.action == .custom))) :
+    extAuthzEnabled (compileCustomSelected o c ps) none req =
+      (customAsks c o.shapeTCP ((ps.map (clause2 o.forTCP)).map (expandPolicy o.bundle)) req).map extPrefix := by
+  rw [ext_authz_enabled_compiled o c ps req hnd hiso, customAsks_expand_clause2]
+  split
+  · rfl
+  · congr 1
+    apply List.filter_congr
+    intro pr _
+    congr 1
+    rw [← filter_action_dry, List.filter_filter, List.any_filter]
+    simp only [List.any_filter]
+    apply any_congr_mem
+    intro p hp
+    by_cases hc : (p.action == Action.custom) = true
+    · by_cases hd : p.dryRun = true
+      · simp [hc, hd]
+      · have hd' : p.dryRun = false := by simpa using hd
+        have hpe : p ∈ enforced .custom ps := by
+          unfold enforced
+          exact List.mem_filter.2 ⟨hp, by simp [hc, hd']⟩
+        have := compiledPolicyMatch_clause2 o req ps p hp h
+        have ha : (p.action == Action.allow) = false := by
+          have : p.action = .custom := by simpa using hc
+          rw [this]; rfl
+        rw [ha] at this
+        simp only [hc, hd', Bool.not_false, Bool.and_true, Bool.true_and, this]
+    · have hc' : (p.action == Action.custom) = false := by simpa using hc
+      simp [hc']
+
+/-- The whole chain and the selected policies. -/
+theorem ext_authz_asked_exact_all (w : Workload) (o : BuildOpts) (c : CustomOpts) (ps : List Policy) (req : Request)
+    (h : HypsOn o (selectPolicies w ps) req) (hnd : CustomEntriesDistinct o (selectPolicies w ps))
+    (hiso : CustomIsolated o ((selectPolicies w ps).filter (·.action == .custom))) :
+    extAuthzEnabled (compileCustomSelected o c (selectPolicies w ps)) none req =
+      (specAsksOn w o.bundle c o.forTCP o.shapeTCP ps req).map extPrefix := by
+  unfold specAsksOn
+  rw [filter_applies_clause2, ← selectPolicies_eq_applies]
+  exact ext_authz_asked_exact o c _ req h hnd hiso
+
+theorem customIsolated_of_B (o : BuildOpts) (ps : List Policy) (h : customIsolatedB o ps = true) :
+    CustomIsolated o (ps.filter (·.action == .custom)) := by
+  intro p hp pr hpr hne e he
+  simp only [customIsolatedB, List.all_eq_true, Bool.or_eq_true, beq_iff_eq, Bool.not_eq_true'] at h
+  rcases h p hp pr hpr with h1 | h1
+  · exact absurd h1 hne
+  · exact h1 e he
+
+/-- A chain tail made of RBAC filters only (the AUDIT / DENY / ALLOW filters) enables no `ext_authz`. -/
+theorem extAuthzEnabled_rbac_only (fs : List Filter) (cur : Option Str) (req : Request) :
+    extAuthzEnabled (fs.map .rbac) cur req = [] := by
+  induction fs generalizing cur with
+  | nil => rfl
+  | cons f t ih => simp only [List.map_cons, extAuthzEnabled]; exact ih _
+
+theorem extAuthzEnabled_append_rbac (a : List GFilter) (fs : List Filter) (cur : Option Str) (req : Request) :
+    extAuthzEnabled (a ++ fs.map .rbac) cur req = extAuthzEnabled a cur req := by
+  induction a generalizing cur with
+  | nil => simp only [List.nil_append, extAuthzEnabled_rbac_only]; rfl
+  | cons g t ih =>
+    cases g with
+    | rbac f => simp only [List.cons_append, extAuthzEnabled]; exact ih _
+    | extAuthz n r pfx => simp only [List.cons_append, extAuthzEnabled, ih]
+
+/-- **CUSTOM comes first**: on the whole chain (CUSTOM filters, then AUDIT, DENY, ALLOW) the external
+    authorizers consulted for a request are determined by the CUSTOM policies alone - the `ext_authz`
+    filters stand before the local filters, so a request is sent to the authorizer whether or not a
+    local DENY / ALLOW policy rejects it afterwards - and they are exactly the ones the statement
+    names.  (Hypotheses as the computable checks the driver evaluates.) -/
+theorem ext_authz_asked_chain (w : Workload) (o : BuildOpts) (c : CustomOpts) (ps : List Policy) (req : Request)
+    (h : hypsOnB o (selectPolicies w ps) req = true) (hiso : customIsolatedB o (selectPolicies w ps) = true) :
+    extAuthzEnabled (compileAll w o c ps) none req =
+      (specAsksOn w o.bundle c o.forTCP o.shapeTCP ps req).map extPrefix := by
+  unfold compileAll
+  rw [extAuthzEnabled_append_rbac]
+  exact ext_authz_asked_exact_all w o c ps req (hypsOn_of_B _ _ _ h).1 (hypsOn_of_B _ _ _ h).2
+    (customIsolated_of_B o _ hiso)
+
+/-- Where `CustomIsolated` fails (multi-provider feature on): providers `x` and `x-ns`.  The request
+    matches only the policy of provider `x`; its RBAC filter stores the id
+    `istio-ext-authz-x-ns[foo]-policy[a]-rule[0]`, which also starts with `istio-ext-authz-x-ns`, the
+    prefix provider `x-ns` looks for: `x-ns`'s authorizer is consulted although none of its policies
+    matches (observation in notes/C08.md; provider names are not generated that way). -/
+theorem ext_authz_prefix_quirk_witness :
+    let c : CustomOpts := { providers := ["x".toList, "x-ns".toList], multi := true }
+    let ps : List Policy :=
+      [ { ns := "foo".toList, name := "a".toList, action := .custom, provider := "x".toList,
+          rules := [ { tos := [ { methods := ["GET".toList] } ] } ] },
+        { ns := "foo".toList, name := "b".toList, action := .custom, provider := "x-ns".toList,
+          rules := [ { tos := [ { methods := ["POST".toList] } ] } ] } ]
+    extAuthzEnabled (compileAll exWl exOpts c ps) none (aliasReq "cluster.local") =
+      [extPrefix "x".toList, extPrefix "x-ns".toList] ∧
+    specAsksOn exWl exOpts.bundle c false false ps (aliasReq "cluster.local") = ["x".toList] ∧
+    customIsolatedB exOpts ps = false := by decide
+
 /-! ## The authz plugin: lazy cache, listener class, termination builder -/
 
 /-- The cache only ever holds what a fresh build would give. -/
